@@ -2,7 +2,7 @@
    Theorems only; proofs are [exact] of lemmas proved elsewhere, or vm_compute witnesses. *)
 From Coq Require Import List ZArith Bool.
 From Verif Require Import Base.Sx Base.GoVal Base.F64 Schema.Ast Schema.Build Schema.Pipeline Schema.Draft4
-  Schema.Classes Schema.PipelineFacts Schema.PipelineTerm Schema.Agreement Schema.AgreementRef Schema.AgreementDec.
+  Schema.Classes Schema.PipelineFacts Schema.PipelineTerm Schema.Agreement Schema.AgreementRef Schema.AgreementDec Schema.AgreementFlocq.
 Import ListNotations.
 Open Scope Z_scope.
 
@@ -123,6 +123,20 @@ Theorem C01_fragment_decision_with_references_is_sound : forall fin_b allow_null
   cleanr_b fin_b allow_null OR defs K n s = true -> cleanr (finP fin_b) allow_null OR defs K n s.
 Proof. exact cleanr_b_sound. Qed.
 Print Assumptions C01_fragment_decision_with_references_is_sound.
+
+(* the instance the correspondence run executes: Flocq binary64, finite numbers. Whenever the decision procedure says
+   "inside" (the count is in the evidence of every run), the model's verdict is the draft-4 verdict over binary64 *)
+Theorem C01_agreement_for_the_binary64_model : forall allow_null OR opt defs K n f1 f2 s fuel d,
+  opt_array_must_have_items opt = false -> opt_obj_array_type_check opt = false ->
+  cleanr_b f_finite allow_null OR defs K n s = true -> jd_b f_finite allow_null fuel d = true ->
+  (n + K < f1)%nat -> (n * S K <= f2)%nat -> forall p q,
+  exists r, sv_validate OR flocq_ops opt defs f1 s p q d = Ok r /\ d4 OR flocq_ops defs f2 s d = Some (r_valid r).
+Proof.
+  intros an OR opt defs K n f1 f2 s fuel d H1 H2 Hc Hd Hf1 Hf2 p q.
+  apply (agreement_with_references (finP f_finite) an OR flocq_ops opt defs K H1 H2 flocq_order_total n f1 f2 s
+           (cleanr_b_sound f_finite an OR defs K n s Hc) Hf1 Hf2 p q d (jd_b_sound f_finite an fuel d Hd)).
+Qed.
+Print Assumptions C01_agreement_for_the_binary64_model.
 
 (* the fragment is decidable: the procedure the harness evaluates on every case (its count is in the evidence) is sound *)
 Theorem C01_fragment_decision_is_sound : forall fin_b allow_null OR n s fuel d,
